@@ -5,7 +5,7 @@ SPEC = dict(
     cases={"quick": 1500, "thorough": 30000},
     level="proof",
     design_ref="DESIGN.md §5 C05",
-    technique="Lean 4 invariant/history proofs over the transcribed merge functions + differential correspondence with the real lattices on all tombstone backends",
+    technique="Lean 4 invariant/history proofs over the transcribed merge functions; comparison theorems over decision tables re-translated from the Rust source on every run; differential correspondence with the real lattices on all tombstone backends",
     level_text=("Theorems (Lean, all histories, no bound): for SetUnionWithTombstones, merging any list of arbitrary "
                 "replica states (duplicates, replicas that are themselves live-and-tombstoned) into bottom in ANY order "
                 "(List.Perm-quantified) gives live = (union of inserted) minus (union of tombstones) and tombstones = union of "
@@ -20,6 +20,16 @@ SPEC = dict(
                 "in the nested value lattice (any ValOps refining a SemilatticeSup with bottom; instantiated for set-union "
                 "values, setOps_spec). tombstone_union_with_spec / tombstone_collect_spec: the bare TombstoneSet surface (union_with, extend, "
                 "collect) is set union and union_with answers the old length. "
+                "Comparisons (PartialOrd/PartialEq of both lattices, Model/TombCmp.lean): TSet.cmp_spec — partial_cmp of "
+                "SetUnionWithTombstones is the order of the lattice (Less/Greater/Equal/None from the two tests a<=b, b<=a, where a<=b iff a's "
+                "tombstones are b's and a's live items are live or tombstoned in b) for duplicate-free disjoint states; TSet.le_iff_merge_noop / "
+                "le_iff_merge_flag_false — a<=b iff merging a into b changes nothing iff that merge's flag is false; TSet.eq_iff, "
+                "TSet.eq_iff_cmp_equal. TMap.cmp_spec — partial_cmp of MapUnionWithTombstones is the order (tombstones included, values "
+                "compared key-wise outside the other side's tombstones, absent = bottom), never reaching an unreachable!() row, generically in a value "
+                "lattice meeting CmpSpec (setCmpOps_spec: the set-union values the harness runs); TMap.le_iff_merge_noop, TMap.eq_iff. The decision "
+                "tables (set_cmp_filter's pair table, the nested match on set_cmp(tombstones), the map variant's final 4-flag table) are NOT "
+                "hand-modelled: translation T regenerates Gen/TombCmp.lean from the two Rust files on every run and the theorems are about the "
+                "generated definitions (a collapsed / swallowed arm makes them fail). "
                 "The model transcribes both `impl Merge` bodies statement by statement and is tied to "
                 "the code by running the same histories (bounded-exhaustive small scopes with every re-merge order + seeded "
                 "random, other-representations Vec/HashSet/BTreeSet/Option/Singleton/tombstone-only/same) on the real "
@@ -27,15 +37,197 @@ SPEC = dict(
                 "(flag, live, tombstones) against the compiled model; the property itself (formula, never-resurrect, "
                 "disjointness, order independence, backend agreement, changed flag) is evaluated on the real code against "
                 "an independent bookkeeping of inserted/tombstoned items; `tb union` lines run TombstoneSet::union_with/extend/contains/len and "
-                "FromIterator/IntoIterator of the HashSet, roaring and FST backends on the same inputs against a BTreeSet oracle."),
+                "FromIterator/IntoIterator of the HashSet, roaring and FST backends on the same inputs against a BTreeSet oracle; `ts cmp` / `tm cmp` "
+                "lines (all 27x27 pairs of set states over three items, all 25x25 pairs of map states over two keys, seeded perturbations over "
+                "3..5 items/keys that differ in live entries and tombstones at once) run partial_cmp and == in both directions on the backends "
+                "that implement them (HashSet / BTreeSet+HashSet sets, HashSet-tombstone maps) against an independent order oracle, duality, "
+                "== <-> Equal and cmp-vs-merge-flag."),
     level_note=("Trusted: Lean kernel + propext/Classical.choice/Quot.sound; HashSet/BTreeSet/RoaringTreemap/fst::Set are "
                 "modelled as duplicate-free lists (their internals are exercised by the correspondence, not proved); "
                 "backend interchangeability is established by correspondence (all backends must print the model's answer), "
                 "the theorems are about the shared model. Map value-level theorems assume replicas without duplicate keys "
-                "(duplicate-key Vec replicas are still run in the correspondence). partial_cmp/eq of the tombstone "
-                "lattices belong to C03 and are not modelled here."),
+                "(duplicate-key Vec replicas are still run in the correspondence). partial_cmp/eq exist only for the HashSet/BTreeSet tombstone "
+                "backings (roaring/FST tombstone sets are not cc_traits Iter/Get); the helper bodies set_cmp / set_cmp_filter / the map key loop are "
+                "hand-transcribed (exercised by correspondence), only the match tables are translated; comparison theorems assume duplicate-free, "
+                "disjoint states with distinct map keys (what merges from bottom produce on hash backings)."),
     trusted_base=["std HashSet/BTreeSet/HashMap, roaring::RoaringTreemap, fst::Set modelled as duplicate-free lists / association lists",
                   "u64 <-> String key bijection (k<n>) used to run the FST backend on the same histories"],
     assumptions=["items/keys are u64 (strings k<n> for FST); Hash/Eq/Ord of the element types are coherent",
                  "map value-level theorems: replica maps have distinct keys and the value lattice satisfies ValSpec (proved for set-union values)"],
 )
+
+
+# ----------------------------------------------------------------------------- translation (T)
+# The decision tables of `PartialOrd::partial_cmp` of the two tombstone lattices are re-extracted from the
+# Rust source on every run into lean/HvLatSpec/HvLatSpec/Gen/TombCmp.lean:
+#   set_union_with_tombstones.rs : the `match (is_a_greater_than_b, is_b_greater_than_a)` of set_cmp_filter and the
+#                                  nested `match set_cmp(&self.tombstones, &other.tombstones) { … }`
+#   map_union_with_tombstones.rs : the final `match (self_any_greater, other_any_greater, self_tombstones_greater,
+#                                  other_tombstones_greater) { … }`
+# The model (Model/TombCmp.lean), the driver and the theorems of Props/C05.lean use the generated definitions, so a
+# collapsed / reordered / swallowed arm changes what the theorems are about (they stop compiling) and what the
+# driver answers.
+import os as _os
+import re as _re
+
+_TOK = {"Some(Less)": "some .lt", "Some(Equal)": "some .eq", "Some(Greater)": "some .gt", "None": "none",
+        "_": "_", "true": "true", "false": "false"}
+
+
+def _strip_comments(s):
+    s = _re.sub(r"/\*.*?\*/", "", s, flags=_re.S)
+    return _re.sub(r"//[^\n]*", "", s)
+
+
+def _block_after(src, head):
+    """text between the `{` that follows `head` and its matching `}`"""
+    i = src.index(head)
+    j = src.index("{", i + len(head) - 1) if not head.rstrip().endswith("{") else i + len(head.rstrip()) - 1
+    depth, k = 0, j
+    while True:
+        c = src[k]
+        if c == "{":
+            depth += 1
+        elif c == "}":
+            depth -= 1
+            if depth == 0:
+                return src[j + 1:k]
+        k += 1
+
+
+def _arms(body):
+    """split `pat => expr,` / `pat => { block }` arms at nesting depth 0"""
+    out, i, n = [], 0, len(body)
+    while True:
+        m = _re.compile(r"\s*(.+?)\s*=>\s*", _re.S).match(body, i)
+        if not m:
+            if body[i:].strip():
+                raise ValueError(f"unparsed arm text `{body[i:].strip()[:60]}`")
+            return out
+        pat, i = " ".join(m.group(1).split()), m.end()
+        if body[i] == "{":
+            depth, k = 0, i
+            while True:
+                if body[k] == "{":
+                    depth += 1
+                elif body[k] == "}":
+                    depth -= 1
+                    if depth == 0:
+                        break
+                k += 1
+            out.append((pat, ("block", body[i + 1:k])))
+            i = k + 1
+            if body[i:i + 1] == ",":
+                i += 1
+        else:
+            depth, k = 0, i
+            while k < n and not (body[k] == "," and depth == 0):
+                if body[k] in "([{":
+                    depth += 1
+                elif body[k] in ")]}":
+                    depth -= 1
+                k += 1
+            out.append((pat, ("expr", " ".join(body[i:k].split()))))
+            i = k + 1
+
+
+def _tok(t):
+    t = t.strip()
+    if t not in _TOK:
+        raise ValueError(f"untranslatable token `{t}`")
+    return _TOK[t]
+
+
+def _tuple_pat(p, n):
+    p = p.strip()
+    if not (p.startswith("(") and p.endswith(")")):
+        raise ValueError(f"expected a {n}-tuple pattern, got `{p}`")
+    parts = [x.strip() for x in p[1:-1].split(",") if x.strip()]
+    if len(parts) != n:
+        raise ValueError(f"expected a {n}-tuple pattern, got `{p}`")
+    return ", ".join(_tok(x) for x in parts)
+
+
+def translate(ctx):
+    res = []
+    out = ["/- GENERATED by checks/C05.py (translate) from /repo/lattices/src/set_union_with_tombstones.rs and",
+           "   map_union_with_tombstones.rs — do not edit.  `match` arms in source order (first match wins, as in Rust). -/",
+           "namespace HvLatSpec.Gen", ""]
+    try:
+        src = _strip_comments(open(_os.path.join(ctx["repo"], "lattices/src/set_union_with_tombstones.rs")).read())
+        src = src.split("#[cfg(test)]")[0]
+        # 1. set_cmp_filter's table
+        body = _block_after(src, "match (is_a_greater_than_b, is_b_greater_than_a) {")
+        arms = _arms(body)
+        out += ["/-- `match (is_a_greater_than_b, is_b_greater_than_a)` in `set_cmp_filter` -/",
+                "def setFilterTable (aG bG : Bool) : Option Ordering :=", "  match aG, bG with"]
+        for pat, (kind, e) in arms:
+            if kind != "expr":
+                raise ValueError("set_cmp_filter table: block arm")
+            out.append(f"  | {_tuple_pat(pat, 2)} => {_tok(e)}")
+        out.append("")
+        res.append(("set_union_with_tombstones.rs: set_cmp_filter table", True, f"{len(arms)} arms"))
+        # 2. the nested match of partial_cmp
+        body = _block_after(src, "match set_cmp(&self.tombstones, &other.tombstones) {")
+        top = _arms(body)
+        want_args = "&self.set, &other.set, &self.tombstones, &other.tombstones"
+        outer, n_inner = [], 0
+        for pat, (kind, e) in top:
+            if kind == "block":
+                m = _re.fullmatch(r"\s*match set_cmp_filter\((.*?)\)\s*\{(.*)\}\s*", e, _re.S)
+                if not m:
+                    raise ValueError(f"arm `{pat}`: expected `match set_cmp_filter(..) {{..}}`")
+                if " ".join(m.group(1).replace(",\n", ", ").split()).rstrip(",") != want_args:
+                    raise ValueError(f"arm `{pat}`: set_cmp_filter called with `{' '.join(m.group(1).split())}`")
+                name = "setTomb" + {"Some(Less)": "Less", "Some(Greater)": "Greater", "Some(Equal)": "Equal", "None": "None", "_": "Any"}[pat] + (str(n_inner) if pat == "_" else "")
+                n_inner += 1
+                inner = _arms(m.group(2))
+                out += [f"/-- the `{pat} =>` branch: `match set_cmp_filter({want_args})` -/",
+                        f"def {name} (r : Option Ordering) : Option Ordering :=", "  match r with"]
+                for ip, (ik, ie) in inner:
+                    if ik != "expr":
+                        raise ValueError(f"arm `{pat}`/`{ip}`: block")
+                    out.append(f"  | {_tok(ip)} => {_tok(ie)}")
+                out.append("")
+                outer.append((pat, f"{name} filt"))
+            elif e == "set_cmp(&self.set, &other.set)":
+                outer.append((pat, "plain"))
+            else:
+                outer.append((pat, _tok(e)))
+        out += ["/-- `match set_cmp(&self.tombstones, &other.tombstones)`: `filt` = `set_cmp_filter(&self.set, &other.set,",
+                "&self.tombstones, &other.tombstones)`, `plain` = `set_cmp(&self.set, &other.set)` -/",
+                "def setOuter (t filt plain : Option Ordering) : Option Ordering :=", "  match t with"]
+        for pat, e in outer:
+            out.append(f"  | {_tok(pat)} => {e}")
+        out.append("")
+        res.append(("set_union_with_tombstones.rs: partial_cmp decision tree", True, f"{len(top)} outer arms, {n_inner} nested tables"))
+        # 3. the map variant's final table
+        src = _strip_comments(open(_os.path.join(ctx["repo"], "lattices/src/map_union_with_tombstones.rs")).read())
+        src = src.split("#[cfg(test)]")[0]
+        hm = _re.search(r"match\s*\(\s*self_any_greater\s*,\s*other_any_greater\s*,\s*self_tombstones_greater\s*,\s*other_tombstones_greater\s*,?\s*\)\s*\{", src)
+        if not hm:
+            raise ValueError("map partial_cmp: final 4-tuple match not found")
+        arms = _arms(_block_after(src[hm.start():], src[hm.start():hm.end()]))
+        out += ["/-- final `match (self_any_greater, other_any_greater, self_tombstones_greater, other_tombstones_greater)`",
+                "of the map variant; outer `none` = `unreachable!()` -/",
+                "def mapFinalTable (sg og stg otg : Bool) : Option (Option Ordering) :=", "  match sg, og, stg, otg with"]
+        for pat, (kind, e) in arms:
+            if kind != "expr":
+                raise ValueError("map final table: block arm")
+            out.append(f"  | {_tuple_pat(pat, 4)} => " + ("none" if e == "unreachable!()" else f"some ({_tok(e)})"))
+        out.append("")
+        res.append(("map_union_with_tombstones.rs: partial_cmp final table", True, f"{len(arms)} arms"))
+    except (ValueError, KeyError, IndexError) as ex:
+        res.append(("tombstone lattices: partial_cmp tables translate", False, str(ex)))
+        return res
+    out += ["end HvLatSpec.Gen", ""]
+    text = "\n".join(out)
+    gp = _os.path.join(ctx["verif"], "lean/HvLatSpec/HvLatSpec/Gen/TombCmp.lean")
+    _os.makedirs(_os.path.dirname(gp), exist_ok=True)
+    if not _os.path.exists(gp) or open(gp).read() != text:
+        with open(gp, "w") as f:
+            f.write(text)
+    return res
+
+
+SPEC["translate"] = translate
